@@ -7,6 +7,25 @@ from pygopherd import gopherentry
 from pygopherd.handlers.base import BaseHandler
 
 
+def run_to_wfile(args, wfile, usesdescriptor: bool, **kwargs) -> None:
+    """Run a program whose output goes to the client.
+
+    The program can only write to wfile by itself when wfile is the plain
+    descriptor of the connection.  When the connection is wrapped in a TLS
+    context, or wfile is not backed by a descriptor at all (the buffer that
+    WAP converts documents in), grab the output and send it through wfile."""
+    if usesdescriptor:
+        try:
+            wfile.fileno()
+        except (AttributeError, OSError):
+            usesdescriptor = False
+    if usesdescriptor:
+        subprocess.run(args, stdout=wfile, **kwargs)
+    else:
+        resp = subprocess.run(args, stdout=subprocess.PIPE, **kwargs)
+        wfile.write(resp.stdout)
+
+
 class CompressedGopherEntry(gopherentry.GopherEntry):
     """
     Using an abstract class because we attach extra variables to the gopher entry.
@@ -83,4 +102,6 @@ class CompressedFileHandler(FileHandler):
     def write(self, wfile):
         decompprog = self.decompressors[self.getentry().realencoding]
         with self.vfs.open(self.getselector(), "rb") as fp:
-            subprocess.run([decompprog], stdin=fp, stdout=wfile)
+            run_to_wfile(
+                [decompprog], wfile, not self.protocol.check_tls(), stdin=fp
+            )
